@@ -18,6 +18,7 @@ VERUS_UNITS = {
     "frontend": ("units_frontend", ["C01", "C02", "C03", "C06", "C07", "C10"]),
     "proxy": ("units_proxy", ["C18", "C06", "C07", "C10", "C09", "C01"]),
     "misc": ("units_misc", ["C08", "C13", "C14", "C15", "C19", "C05"]),
+    "adapters": ("units_adapters", ["C02", "C14", "C11", "C18"]),
 }
 # which units to run for a property
 VERUS_FOR = {}
@@ -121,6 +122,21 @@ def run_verus_unit(name, prop, tier, keep=False):
     res["functions"] = list(u.functions)
     res["spans"] = u.spans
     res["rules"] = dict(u.rw.fired)
+    if getattr(u, "no_verus", False):
+        myscans = [s for s in u.scans if prop in s[0]]
+        res["scans"] = [dict(name=s[1], ok=s[2], desc=s[3]) for s in myscans]
+        res["obligations"] = len(myscans)
+        res["cmd"] = "syntactic delegation scan over the extracted adapter impls (units_adapters.py)"
+        bad = 0
+        for s in myscans:
+            if not s[2]:
+                bad += 1
+                res["failures"].append(dict(engine="scan", unit=name, fn=s[1], label=",".join(s[0]), message="syntactic frame condition violated",
+                                            clause=s[3], extracted=None, key="scan:%s:%s" % (name, s[1]), rendered=s[3], path=path))
+        res["discharged"] = res["obligations"] - bad
+        res["status"] = "fail" if bad else "ok"
+        os.unlink(path)
+        return res
     t0 = time.time()
     vr = vx.run_verus(path, rlimit=(30 if tier == "quick" else 60))
     res["time_s"] = time.time() - t0
